@@ -33,6 +33,10 @@ def run_property(prop, root, tier='quick'):
     mod.run(ctx)
     from pblint import hazards
     hazards.rule_effects(ctx, '%s.Z1' % prop, hazards.files_of(prop))
+    from pblint import delta
+    delta.rule_delta(ctx, '%s.Z2' % prop)
+    from pblint import tokenedit
+    tokenedit.rule_token(ctx, '%s.Z3' % prop)
     return ctx
 
 
